@@ -62,6 +62,7 @@ FIELDS = {
     ("node::NodeSplitIterator", "char_offset"): MC, ("node::NodeSplitIterator", "char_end"): MC,
     ("lexicon::LexiconEntry", "end"): MB,
     ("inner::Node", "begin"): MC, ("inner::Node", "end"): MC,
+    ("edit::ReplaceOp", "what"): MB,
 }
 # offset tables of InputBuffer: field -> (index space, element space)
 TABLES = {
@@ -71,6 +72,15 @@ TABLES = {
 TEXTS = {"original": OB, "modified": MB}   # str fields of InputBuffer: slice index space
 # functions in which m2o_2 is scratch storage (it holds the *new* MB->OB map being built)
 SCRATCH_FNS = ("InputBuffer::commit", "edit::resolve_edits", "edit::add_replace")
+# parameters that are offset tables / texts: (fn suffix, param name) -> (index space, element space)
+PARAM_TABLES = {
+    ("edit::resolve_edits", "source_mapping"): (MB, OB), ("edit::add_replace", "source_mapping"): (MB, OB),
+    ("edit::resolve_edits", "source"): (MB, None),
+}
+# growable out-parameters: (fn suffix, param name) -> space every pushed / extended value must have
+PARAM_SINKS = {
+    ("edit::resolve_edits", "target_mapping"): OB, ("edit::add_replace", "target_mapping"): OB,
+}
 # parameter seeds: (fn key suffix, param name) -> space
 PARAMS = {
     ("InputBuffer::to_orig_byte_idx", "index"): MC, ("InputBuffer::to_orig_char_idx", "index"): MC,
@@ -84,6 +94,9 @@ PARAMS = {
     ("OovProviderPlugin>::provide_oov", "offset"): MC, ("MeCabOovPlugin::provide_oov_gen", "offset"): MC,
     ("MeCabOovPlugin::get_oov_node", "start"): MC, ("MeCabOovPlugin::get_oov_node", "end"): MC,
     ("LatticeBuilder::provide_oovs", "char_offset"): MC,
+    ("edit::add_replace", "what"): MB,
+    ("InputEditor::replace_ref", "range"): MB, ("InputEditor::replace_char", "range"): MB, ("InputEditor::replace_own", "range"): MB,
+    ("InputEditor::replace_char_iter", "range"): MB,
 }
 
 
@@ -116,8 +129,12 @@ class Units:
         return None
 
     def table_of(self, base):
-        """base expr of an Index: InputBuffer offset table or text?"""
+        """base expr of an Index: InputBuffer offset table or text, or a seeded table parameter"""
         b = peel(base)
+        if b.get("k") == "Path" and b.get("res") == "local":
+            for (suf, nm), sp in PARAM_TABLES.items():
+                if b["name"] == nm and path_ends(self.f.key, suf):
+                    return ("ptable", (suf, nm))
         if b.get("k") == "Field" and (b.get("adt") or "").endswith("buffer::InputBuffer"):
             if b["name"] in TABLES:
                 if b["name"] == "m2o_2" and self.scratch:
@@ -162,6 +179,9 @@ class Units:
             t = self.table_of(e["e"])
             if t and t[0] == "table":
                 return TABLES[t[1]][1]
+            if t and t[0] == "ptable":
+                # indexing with a Range yields a sub-table, with a scalar an element: both carry the element space
+                return PARAM_TABLES[t[1]][1]
             return None
         if k == "Binary" and e.get("op") in ("Add", "Sub"):
             a, b = self.space(e["l"], depth + 1), self.space(e["r"], depth + 1)
@@ -260,8 +280,21 @@ class Units:
             elif k == "Index":
                 t = self.table_of(n["e"])
                 if t:
-                    want = TABLES[t[1]][0] if t[0] == "table" else TEXTS[t[1]]
-                    self.require(n["i"], want, "index of self.%s" % t[1], n)
+                    if t[0] == "ptable":
+                        self.require(n["i"], PARAM_TABLES[t[1]][0], "index of %s" % t[1][1], n)
+                    else:
+                        want = TABLES[t[1]][0] if t[0] == "table" else TEXTS[t[1]]
+                        self.require(n["i"], want, "index of self.%s" % t[1], n)
+            elif k == "MethodCall" and n.get("method") in ("push", "extend", "extend_from_slice", "insert") and n["args"]:
+                nm = local_name(n["recv"])
+                for (suf, pn), sp in PARAM_SINKS.items():
+                    if nm == pn and path_ends(self.f.key, suf):
+                        arg = n["args"][-1]
+                        # `.iter()` over a sub-table keeps the element space
+                        a2 = peel(arg)
+                        while a2.get("k") == "MethodCall" and a2.get("method") in ("iter", "copied", "cloned", "into_iter"):
+                            a2 = peel(a2["recv"])
+                        self.require(a2, sp, "value stored into %s" % pn, n)
             elif k == "Assign":
                 l = peel(n["l"])
                 if l.get("k") == "Field":
